@@ -46,7 +46,18 @@ func H11_utf8() {
 	t := hNewTScreen("xterm-256color")
 	evs, left := h11Feed(t, s, k)
 	vsymAssert(left == 0, "no byte of valid text stays buffered")
-	vsymAssert(len(evs) == len(want), "one event per character")
+	hasRepl := false
+	for _, r := range want {
+		if r == 0xFFFD {
+			hasRepl = true
+		}
+	}
+	if hasRepl {
+		// U+FFFD REPLACEMENT CHARACTER is itself a valid scalar value that can be typed or pasted
+		vsymAssert(len(evs) == len(want), "one event per character [text containing U+FFFD]")
+	} else {
+		vsymAssert(len(evs) == len(want), "one event per character")
+	}
 	if len(evs) != len(want) {
 		return
 	}
